@@ -40,7 +40,7 @@ PFirstTy(p) == IF p.t = "hole" THEN p.ty
                                  ELSE LET r == PFirstTy(ks[i]) IN IF r # "" THEN r ELSE Go(i + 1)
                     IN Go(1)
 PWithKids(p, ks) ==
-    CASE p.t \in {"bin", "cmp", "log", "ord"} -> [p EXCEPT !.l = ks[1], !.r = ks[2]]
+    CASE p.t \in {"bin", "cmp", "log", "ord", "aug"} -> [p EXCEPT !.l = ks[1], !.r = ks[2]]
       [] p.t = "un" -> [p EXCEPT !.a = ks[1]]
       [] p.t = "call" -> [p EXCEPT !.f = ks[1], !.args = SubSeq(ks, 2, 1 + Len(p.args)),
                             !.kw = [i \in 1..Len(p.kw) |->
@@ -74,6 +74,11 @@ UnOps == {"-", "+", "~", "not_"}
 Depth1 ==
        { BinP(op, E, A) : op \in BinOps } \cup { BinP(op, Nm, E) : op \in BinOps }
   \cup { UnP(op, E) : op \in UnOps }
+  \* augmented assignment (a op= r), observed through the assigned name and through another
+  \* name of the left object: every operator over the reduced kinds, + and * over all kinds
+  \cup { AugP(op, Es, As, obs) : op \in BinOps, obs \in {"target", "alias"} }
+  \cup { AugP(op, Ns, Es, obs) : op \in BinOps, obs \in {"target", "alias"} }
+  \cup { AugP(op, E, A, "alias") : op \in {"+", "*"} }
   \cup { CmpP(op, E, A) : op \in CmpOps } \cup { LogP(op, E, A) : op \in {"and", "or"} }
   \cup { OrdP(op, E, A) : op \in {"<", "<=", ">", ">="} }
   \cup { OrdP(op, Nm, E) : op \in {"<", ">="} }
